@@ -10,7 +10,7 @@ THEOREMS = [
     'Ndn.C07.parse_total', 'Ndn.C07.decodePacket_error_classes', 'Ndn.C07.shipped_decoders_error_classes',
     'Ndn.C07.decodeName_error_classes',
     'Ndn.C07.accepted_has_name', 'Ndn.C07.accepted_outer_exact', 'Ndn.C07.strict_implies_accept_partial',
-    'Ndn.C07.overrun_accepted_counterexample', 'Ndn.Gen.C07.packet_schemas_ok',
+    'Ndn.C07.overrun_accepted_counterexample', 'Ndn.Gen.C07.packet_schemas_ok', 'Ndn.Gen.C07.schemas_pinned',
     # the strict decoder (NdnModel/CodecStrict.lean) and the exact size of the known finding
     'Ndn.C07.strict_accepts_well_nested', 'Ndn.C07.strict_agrees', 'Ndn.C07.strict_refines',
     'Ndn.C07.strict_error_agrees', 'Ndn.C07.only_overruns_differ', 'Ndn.C07.accept_iff_strict',
@@ -324,7 +324,10 @@ def run_impl(case):
     except Exception as e:   # noqa
         out['dec'] = ['err', _exc(e)]
     try:
-        vals = S.strict_packet(fs, wire, K['outer'], K['ic'], K['need_name'])
+        # the strict reading takes WHICH sub-models may ignore unrecognised critical elements from the packet
+        # specification, not from the source (only a Data's / certificate's SignatureInfo, for extensions)
+        fs_spec = _spec_flags(case['kind'], fs)
+        vals = S.strict_packet(fs_spec, wire, K['outer'], K['ic'], K['need_name'])
         for s, v in zip(fs, vals):
             if s[0] != 'K' and _typ(s) in K['forbid'] and v is not None:
                 raise S.Reject('fragmented envelope')
@@ -336,6 +339,22 @@ def run_impl(case):
 
 def _typ(s):
     return s[1][1] if s[0] in ('R', 'P') else (None if s[0] == 'K' else s[1])
+
+
+SPEC_IGNORE_CRITICAL = {('data', 22), ('cert', 22)}
+
+
+def _spec_flags(kind, fs, top=True):
+    out = []
+    for s in fs:
+        if s[0] == 'M':
+            ic = top and (kind, s[1]) in SPEC_IGNORE_CRITICAL
+            out.append(('M', s[1], ic, _spec_flags(kind, s[3], False), s[4]))
+        elif s[0] == 'R':
+            out.append(('R', _spec_flags(kind, [s[1]], False)[0]))
+        else:
+            out.append(s)
+    return out
 
 
 # ------------------------------------------------------------------------------------- model
@@ -433,7 +452,7 @@ def finding_key(case, impl, why):
 # ------------------------------------------------------------------ generated table (lean/NdnGen/C07.lean)
 def extract(repo):
     from props.c08 import _lean_schema
-    out = ['import NdnModel.CodecWF',
+    out = ['import NdnModel.CodecWF', 'import NdnModel.PacketEnc', 'import NdnModel.Cert',
            '/- GENERATED on every run by harness/props/c07.py from the live `_encoded_fields` of the four packet',
            '   classes.  Do not edit. -/',
            'namespace Ndn.Gen.C07', 'open Ndn.Codec', '']
@@ -443,6 +462,11 @@ def extract(repo):
     out.append('')
     out.append('/-- the four packet schemas are in the fragment the decoder theorems quantify over -/')
     out.append('theorem packet_schemas_ok : [interest, data, lp, cert].all pFs = true := by decide')
+    out.append('')
+    out.append('/-- field order, Type numbers, fixed lengths, marker positions and ignore_critical flags of the three')
+    out.append('    network-packet classes are the ones the packet models (and the packet specification) fix -/')
+    out.append('theorem schemas_pinned : interest = Ndn.Packet.interestFs ∧ data = Ndn.Packet.dataFs ∧')
+    out.append('    cert = Ndn.Cert.certFs := ⟨rfl, rfl, rfl⟩')
     out.append('')
     out.append('end Ndn.Gen.C07')
     return '\n'.join(out) + '\n'
